@@ -837,25 +837,46 @@ func init() {
 			return tFalse
 		},
 		"k8s.io/client-go/util/retry.RetryOnConflict": func(ex *Exec, fr *frame, fn *ssa.Function, args []Value, pos tokenPos) Value {
-			// bound: at most 2 attempts
+			// as many attempts as the backoff allows (retry.DefaultRetry: 5); the sleeps between them are skipped
+			steps := int64(5)
+			if sv, _, ok := structFieldByName(args[0], fn.Signature.Params().At(0).Type(), "Steps"); ok {
+				if c, ok := asTerm(sv).constInt(); ok && c >= 1 && c <= 10 {
+					steps = c
+				}
+			}
 			f := args[1].(FuncV)
-			err := ex.callFn(fr, f, nil, pos)
-			if e, ok := err.(IfaceV); ok && e.t != nil {
+			var err Value
+			for i := int64(0); i < steps; i++ {
+				err = ex.callFn(fr, f, nil, pos)
+				e, ok := err.(IfaceV)
+				if !ok || e.t == nil {
+					return err
+				}
 				isConflict := icReason("Conflict")(ex, fr, fn, []Value{e}, pos).(*Term)
-				if ex.branch(isConflict) {
-					return ex.callFn(fr, f, nil, pos)
+				if !ex.branch(isConflict) {
+					return err
 				}
 			}
 			return err
 		},
 		"k8s.io/client-go/util/retry.OnError": func(ex *Exec, fr *frame, fn *ssa.Function, args []Value, pos tokenPos) Value {
+			steps := int64(5)
+			if sv, _, ok := structFieldByName(args[0], fn.Signature.Params().At(0).Type(), "Steps"); ok {
+				if c, ok := asTerm(sv).constInt(); ok && c >= 1 && c <= 10 {
+					steps = c
+				}
+			}
 			retriable := args[1].(FuncV)
 			f := args[2].(FuncV)
-			err := ex.callFn(fr, f, nil, pos)
-			if e, ok := err.(IfaceV); ok && e.t != nil {
-				r := asTerm(ex.callFn(fr, retriable, []Value{e}, pos))
-				if ex.branch(r) {
-					return ex.callFn(fr, f, nil, pos)
+			var err Value
+			for i := int64(0); i < steps; i++ {
+				err = ex.callFn(fr, f, nil, pos)
+				e, ok := err.(IfaceV)
+				if !ok || e.t == nil {
+					return err
+				}
+				if !ex.branch(asTerm(ex.callFn(fr, retriable, []Value{e}, pos))) {
+					return err
 				}
 			}
 			return err
